@@ -80,3 +80,80 @@ def gen_store(items):
             out.append(D('DECOMPRESSOR_ID_' + name.upper(), int(m.group(1)), 'src/store/decompressors.rs get_id'))
         return '\n'.join(out)
     items.append(decompressor_ids)
+
+    # ---- common/src/vint.rs::serialize_vint_u32: the unrolled ladder that length-prefixes every
+    # string / bytes / child table inside CompactDoc (write_bytes_into) ----
+    def vint_u32_ladder():
+        f = 'common/src/vint.rs'
+        # the signature contains `[u8; 8]`, which the generic fn_body pattern does not accept
+        text = strip_comments(src(f))
+        m0 = re.search(r'\bfn\s+serialize_vint_u32\b', text)
+        if not m0:
+            raise Fail(f + ': fn serialize_vint_u32 not found')
+        i = m0.end(); depth = 0
+        while i < len(text) and not (text[i] == '{' and depth == 0):
+            depth += (text[i] in '([') - (text[i] in ')]')
+            i += 1
+        j = i + 1; depth = 1
+        while depth and j < len(text):
+            depth += (text[j] == '{') - (text[j] == '}')
+            j += 1
+        body = text[i + 1:j - 1]
+        env = {}
+        for k in (2, 3, 4, 5):
+            m = re.search(r'const\s+START_%d\s*:\s*u64\s*=\s*([^;]+);' % k, body)
+            if not m:
+                raise Fail(f + ': START_%d not found' % k)
+            env['START_%d' % k] = eval_const_expr(m.group(1), env)
+        m = re.search(r'const\s+MASK_1\s*:\s*u64\s*=\s*([^;]+);', body)
+        if not m or eval_const_expr(m.group(1), {}) != 127:
+            raise Fail(f + ': MASK_1 is not 127')
+        for k in (2, 3, 4, 5):
+            if not re.search(r'const\s+MASK_%d\s*:\s*u64\s*=\s*MASK_%d\s*<<\s*7\s*;' % (k, k - 1), body):
+                raise Fail(f + ': MASK_%d is not MASK_%d << 7' % (k, k - 1))
+        conds = list(re.finditer(r'(?:else\s+)?if\s+val\s*(<=|<)\s*(START_\d)\s*\{', body))
+        if len(conds) != 4:
+            raise Fail(f + ': expected 4 threshold tests in serialize_vint_u32, found %d' % len(conds))
+        last_else = re.search(r'\}\s*else\s*\{', body[conds[-1].end():])
+        if not last_else:
+            raise Fail(f + ': final else branch of serialize_vint_u32 not found')
+        cut = [c.end() for c in conds] + [conds[-1].end() + last_else.end()]
+        starts = [c.start() for c in conds[1:]] + [conds[-1].end() + last_else.start(), len(body)]
+        branches = []
+        for i in range(5):
+            seg = body[cut[i]:starts[i]] if i < 4 else body[cut[4]:body.index('*buf', cut[4])]
+            nb = re.findall(r',\s*(\d+)\s*,?\s*\)', seg)
+            if not nb:
+                raise Fail(f + ': number of bytes of branch %d not found' % (i + 1))
+            n = int(nb[-1])
+            masks = sorted(set(int(x) for x in re.findall(r'MASK_(\d)', seg)))
+            if n == 1:
+                if not re.search(r'val\s*\|\s*STOP_BIT', seg):
+                    raise Fail(f + ': one-byte branch is not `val | STOP_BIT`')
+            else:
+                if masks != list(range(1, n + 1)):
+                    raise Fail(f + ': branch with %d bytes uses masks %r' % (n, masks))
+                for j in range(2, n + 1):
+                    if not re.search(r'\(val\s*&\s*MASK_%d\)\s*<<\s*%d\b' % (j, j - 1), seg):
+                        raise Fail(f + ': branch with %d bytes does not shift group %d by %d' % (n, j, j - 1))
+                sh = re.search(r'STOP_BIT\s*<<\s*\(\s*8\s*(?:\*\s*(\d+))?\s*\)', seg)
+                if not sh or int(sh.group(1) or 1) != n - 1:
+                    raise Fail(f + ': stop bit of the %d-byte branch is not at byte %d' % (n, n - 1))
+            branches.append(n)
+        parts = []
+        for c, n in zip(conds, branches[:4]):
+            op = '<' if c.group(1) == '<' else '≤'
+            parts.append('if v %s %d then %d' % (op, env[c.group(2)], n))
+        expr = ' else '.join(parts) + ' else %d' % branches[4]
+        return ('/-- `serialize_vint_u32`: the number of bytes its threshold ladder selects (comparison operators\n'
+                'and thresholds as in the source) -/\n'
+                'def vintU32NumBytes (v : Nat) : Nat := ' + expr)
+    items.append(vint_u32_ladder)
+
+    def vint_len_limit():
+        body = fn_body('common/src/vint.rs', 'vint_len')
+        m = re.search(r'\.take\(\s*(\d+)\s*\)', body)
+        if not m:
+            raise Fail('common/src/vint.rs: scan limit of vint_len not found')
+        return D('VINT_U32_MAX_LEN', int(m.group(1)), 'common/src/vint.rs vint_len scans at most this many bytes')
+    items.append(vint_len_limit)
